@@ -8,11 +8,22 @@ V = os.path.dirname(os.path.dirname(os.path.abspath(__file__)))
 prop = sys.argv[1]
 append = sys.argv[2] if len(sys.argv) > 2 else None      # mkfindings.py C01 <tag>: keep the existing classes and add the dumped cases as <prop>-<tag>NNN
 classes = collections.OrderedDict()
-for l in open(os.path.join(V, 'replays', prop, 'all.jsonl')):
+src = sys.argv[3] if len(sys.argv) > 3 else os.path.join(V, 'replays', prop, 'all.jsonl')      # mkfindings.py C01 k2 <dump>: two-field cases only
+pairs_only = append is not None and append.startswith('k2')
+_known = set()
+if pairs_only:
+    _old = json.load(open(os.path.join(V, 'known_findings', prop + '.cases.json')))
+    _known = set(c for f in _old.values() for c in f['cases'])
+for l in open(src):
     d = json.loads(l); det = d['detail']; cid = d['case']
-    if ' & ' in cid:
-        continue        # k=2 cases are explained through their components at run time
-    field = re.sub(r'\d+', 'N', cid.split('/', 1)[1].split('=')[0])
+    if (' & ' in cid) != pairs_only:
+        continue        # (single-field run: k=2 cases are explained through their components at run time, see Check.match_known)
+    if pairs_only:
+        base, rest = cid.split('/', 1)
+        if any(base + '/' + c in _known for c in rest.split(' & ')): continue        # explained by a listed component
+        field = ' & '.join(re.sub(r'\d+', 'N', c.split('=')[0]) for c in rest.split(' & '))
+    else:
+        field = re.sub(r'\d+', 'N', cid.split('/', 1)[1].split('=')[0])
     if prop == 'C01':
         sig = 'run2:' + ','.join(sorted(set(det['codes_fn']))) + ('/exit%s' % det['rc_fn'])
     else:
